@@ -20,7 +20,7 @@ import common
 from common import run_driver
 
 TRUSTED = [
-    'Lean 4.33.0 kernel; axioms of every theorem in Props/C20.lean within {propext, Classical.choice, Quot.sound}',
+    'Lean 4.33.0 kernel; axioms of every theorem in Props/C20*.lean within {propext, Classical.choice, Quot.sound}',
     'harness/props/c20.py + harness/vars_worker.py (history generator; forked sessions from a pristine template process)',
     'CPython pickle (the order in which __setstate__ runs for the array objects of a pickled list is the list order)',
     'ECOS for the probe LP (value compared at 1e-6)',
